@@ -404,7 +404,7 @@ func genSignedBase(t *rapid.T) SignedBase {
 
 var specC16 = Register(&Spec[SigCase]{
 	Prop: "C16", Name: "debsig",
-	Rule:  "fault enumeration over generated debsig-signed packages (C14 models with stored/gzip/zstd members, role in {origin, maint, archive}, RSA signer from a per-process pool, detached binary signature over debian-binary|control|data in '_gpg<role>'): the untampered package with the signer in the keyring (accept - and after the check the handle still delivers the signed payload, and a repeated check agrees; the same with another signed package of the same layout loaded before and after it and left open); EVERY single-byte XOR 0x01 inside the three signed members (reject); a decoy control.*/data.* member with a different extension (a stored tar carrying 'Package: evil', or a copy) and a same-name duplicate with changed content inserted at EVERY member position, each loaded 64 times (reject); a decoy named the GNU way - a '//' name table plus a member '/0' - at every position (must fail or expose the signed content); a role that is not present, an unrelated keyring, an empty keyring - nil slice or empty slice - (reject); data and control swapped in the file with a signature made over the file-order concatenation (reject) or the genuine one (must fail or expose the signed content); a second CheckDebsig on the same handle with an unrelated or empty keyring after a successful first one (the second must fail); EVERY single-byte XOR inside the signature member (must fail or still verify the unmodified content); per signed member one altered byte in a package loaded from a FILE that is closed before the check while its path (or the path told to Load) leads to the genuine package (reject); the signature member followed by junk, a NUL byte, a truncated or a damaged second signature, followed by the first k bytes of a second copy for EVERY k, with a well-formed user-ID or literal-data packet or an empty / one-byte / indeterminate-length signature packet in front of or behind it, and a second copy whose version, public-key-algorithm or hash-algorithm byte lost a bit (five masks) in front of or behind the good one (reject); the signature member replaced by its ASCII-armored form, alone (either outcome), with a foreign/empty keyring and with flipped bytes in each signed member (reject). Oracle: reject => Load or CheckDebsig fails on every repetition; always: if both succeed, the control data exposed equals the signed package's model and the signer is the signing entity. Non-trivial: every faulted case; distinct by (bytes, role, keyring).",
+	Rule:  "fault enumeration over generated debsig-signed packages (C14 models with stored/gzip/zstd members, role in {origin, maint, archive}, RSA signer from a per-process pool, detached binary signature over debian-binary|control|data in '_gpg<role>'): the untampered package with the signer in the keyring (accept - and after the check the handle still delivers the signed payload, and a repeated check agrees; the same with another signed package of the same layout loaded before and after it and left open); EVERY single-byte XOR 0x01 inside the three signed members (reject); a decoy control.*/data.* member with a different extension (a stored tar carrying 'Package: evil', or a copy) and a same-name duplicate with changed content inserted at EVERY member position, each loaded 64 times (reject); a decoy behind a run of 60 .. 128 NUL / newline bytes that follows the genuine members (reject); a decoy named the GNU way - a '//' name table plus a member '/0' - at every position (must fail or expose the signed content); a role that is not present, an unrelated keyring, an empty keyring - nil slice or empty slice - (reject); data and control swapped in the file with a signature made over the file-order concatenation (reject) or the genuine one (must fail or expose the signed content); a second CheckDebsig on the same handle with an unrelated or empty keyring after a successful first one (the second must fail); EVERY single-byte XOR inside the signature member (must fail or still verify the unmodified content); per signed member one altered byte in a package loaded from a FILE that is closed before the check while its path (or the path told to Load) leads to the genuine package (reject); the signature member followed by junk, a NUL byte, a truncated or a damaged second signature, followed by the first k bytes of a second copy for EVERY k, with a well-formed user-ID or literal-data packet or an empty / one-byte / indeterminate-length signature packet in front of or behind it, and a second copy whose version, public-key-algorithm or hash-algorithm byte lost a bit (five masks) in front of or behind the good one (reject); the signature member replaced by its ASCII-armored form, alone (either outcome), with a foreign/empty keyring and with flipped bytes in each signed member (reject). Oracle: reject => Load or CheckDebsig fails on every repetition; always: if both succeed, the control data exposed equals the signed package's model and the signer is the signing entity. Non-trivial: every faulted case; distinct by (bytes, role, keyring).",
 	Check: checkSigCase,
 })
 
@@ -694,6 +694,19 @@ func enumerateSigFaults(b SignedBase, yield func(SigCase) bool) bool {
 		for pos := 0; pos <= len(members); pos++ {
 			ms := append(append(append([]ArMember{}, members[:pos]...), dcy), members[pos:]...)
 			if !yield(mk(renderAr(ms), "reject", fmt.Sprintf("decoy:%s@%d", dcy.Name, pos), 64)) {
+				return false
+			}
+		}
+	}
+	// a decoy behind what a tolerant reader takes for the end of the archive: a run of 60 bytes or
+	// more of NUL or newline padding behind the genuine members, then the decoy member
+	for di, dcy := range decoys {
+		if di > 2 {
+			break
+		}
+		for _, pad := range [][]byte{bytes.Repeat([]byte{0}, 60), bytes.Repeat([]byte{'\n'}, 60), bytes.Repeat([]byte{0}, 128), bytes.Repeat([]byte{'\n', 0}, 61)} {
+			rawPad := append(append(append([]byte{}, raw...), pad...), renderAr([]ArMember{dcy})[len(arMagic):]...)
+			if !yield(mk(rawPad, "reject", fmt.Sprintf("decoy-behind-padding:%s/%d", dcy.Name, len(pad)), 2)) {
 				return false
 			}
 		}
